@@ -594,6 +594,8 @@ def keyKindOf : String → Option KeyKind
   | "p521" => some (.ecdsa true) | "w256" => some (.ecdsa true) | "w384" => some (.ecdsa true)
   | "w521" => some (.ecdsa true) | "off256" => some (.ecdsa false) | "inf256" => some (.ecdsa false)
   | "ed25519" => some .ed25519 | "foreign" => some .foreign
+  -- an ed25519.PublicKey value of another length than 32 octets is not an Ed25519 key
+  | "ed31" => some .foreign | "ed33" => some .foreign | "ed0" => some .foreign
   | _ => none
 
 def opNew (a : List String) : M String :=
